@@ -92,7 +92,7 @@ def generate(prng, tier, index):
                        {"int": "mix", "p": 0.5}))
     return {"variant": variant, "universe": uni, "ops": ops, "policy": pol, "max_faults": prng.choice((1, 2, 3)),
             # when the harness itself iterates the set: after every operation, or only at the history's own iterate operations
-            "observe": prng.choice(("every", "sparse"))}
+            "observe": prng.choice(("every", "every", "sparse", "blind"))}
 
 
 _NAN, _NAN2 = float("nan"), float("nan")
@@ -361,12 +361,16 @@ def execute(sc, ctx):
             pass  # membership over the whole universe is compared below after every operation
         elif op == "iter":
             pass
-        sparse = sc.get("observe") == "sparse"
-        if not _compare(ctx, ds, model, uni, after, iterate=(not sparse) or op == "iter" or k == len(sc["ops"]) - 1):
+        mode = sc.get("observe", "every")
+        observing = op in ("iter", "contains") or k == len(sc["ops"]) - 1
+        if mode == "blind" and not observing:
+            ctx.result(op, len(model))          # no probe of the set at all here: not even len() or membership
+            continue
+        if not _compare(ctx, ds, model, uni, after, iterate=(mode == "every") or op == "iter" or k == len(sc["ops"]) - 1):
             return
         ctx.result(op, len(model))
-    if sc.get("observe") == "sparse":
-        ctx.probe("sparse_observation_history")
+    if sc.get("observe", "every") != "every":
+        ctx.probe(f"{sc['observe']}_observation_history")
     ctx.mutations = mutations
 
 
